@@ -31,6 +31,7 @@ type Options struct {
 	Offline  bool
 	Disabled []string // --disabled
 	Enabled  []string // --enabled
+	State    *discovery.ChangeType // when set, every parsed entry gets this change state (as `pint ci` would assign it)
 }
 
 // LoadConfig writes the HCL text into dir and loads it with config.Load. An empty text means
@@ -141,6 +142,11 @@ func Lint(cfg config.Config, path string, content []byte, o Options) Result {
 	entries, p := Entries(path, content, o)
 	if p != "" {
 		return Result{Panic: p}
+	}
+	if o.State != nil {
+		for i := range entries {
+			entries[i].State = *o.State
+		}
 	}
 	return Check(cfg, entries, o)
 }
